@@ -460,7 +460,7 @@ func c05IdentifierProperty(t *rapid.T) {
 	// seed that is not a flag word carries a letter or digit (a blank or punctuation-only seed may be treated as none)
 	valid := 0
 	for _, s := range seeds {
-		if s != "auto" && s != "node" && strings.ContainsAny(s, "abcdefghijklmnopqrstuvwxyzABCDEFGHIJKLMNOPQRSTUVWXYZ0123456789") {
+		if s != "auto" && s != "node" && utf8.ValidString(s) && strings.ContainsAny(s, "abcdefghijklmnopqrstuvwxyzABCDEFGHIJKLMNOPQRSTUVWXYZ0123456789") {
 			valid++
 		}
 	}
